@@ -323,11 +323,19 @@ def r3_fourier(ctx: Context) -> None:
     mask_name = mask_stores[0].targets[0].value.id if mask_stores else "mask"
     _check_returns(ctx, i, "R3.fourier-ideal", "ideal_low_pass_filter:return", "ideal filter = spectrum * mask (mask: zeros with ones on the first n)", [f"{sig} * {mask_name}"], normaliser(prog, i, inline_locals=False))
     zero_init = [s for s in walk_scope(i.node) if isinstance(s, ast.Assign) and isinstance(s.targets[0], ast.Name) and s.targets[0].id == mask_name]
-    ctx.check(len(zero_init) == 1 and str(nn.rat(zero_init[0].value)) == str(nn.rat(parse_expr(f"np.zeros({sig}.shape[0])"))), "R3.fourier-ideal", "ideal_low_pass_filter:mask-init",
-              "the mask starts as zeros over all frequencies", f"mask initialised by `{src(zero_init[0].value) if zero_init else '?'}`", i, i.node)
-    ok = len(mask_stores) == 1 and str(nn.rat(mask_stores[0].targets[0].slice.upper)) == str(nn.rat(parse_expr(f"int(np.round({ff} * {sig}.shape[0]))"))) and mask_stores[0].targets[0].slice.lower is None \
-        and src(mask_stores[0].value) in ("1.0", "1")
-    ctx.check(ok, "R3.fourier-ideal", "ideal_low_pass_filter:mask", "the first round(f * n_freq) components are kept", f"mask store `{src(mask_stores[0]) if mask_stores else '?'}`", i, i.node)
+    cut = str(nn.rat(parse_expr(f"int(np.round({ff} * {sig}.shape[0]))")))
+    init_form = str(nn.rat(zero_init[0].value)) if len(zero_init) == 1 else ""
+    zeros_form, empty_form = str(nn.rat(parse_expr(f"np.zeros({sig}.shape[0])"))), str(nn.rat(parse_expr(f"np.empty({sig}.shape[0])")))
+    head = [s for s in mask_stores if s.targets[0].slice.lower is None and s.targets[0].slice.upper is not None and s.targets[0].slice.step is None and str(nn.rat(s.targets[0].slice.upper)) == cut]
+    tail = [s for s in mask_stores if s.targets[0].slice.upper is None and s.targets[0].slice.lower is not None and s.targets[0].slice.step is None and str(nn.rat(s.targets[0].slice.lower)) == cut]
+    ones = lambda s: src(s.value) in ("1.0", "1")  # noqa: E731
+    zeros = lambda s: src(s.value) in ("0.0", "0")  # noqa: E731
+    # zeros with ones on the first n, or an uninitialised buffer whose two slices [:n] = 1 and [n:] = 0 cover it entirely
+    form_a = init_form == zeros_form and len(mask_stores) == 1 and len(head) == 1 and ones(head[0])
+    form_b = init_form in (empty_form, zeros_form) and len(mask_stores) == 2 and len(head) == 1 and len(tail) == 1 and ones(head[0]) and zeros(tail[0])
+    ctx.check(init_form in (zeros_form, empty_form) and (init_form == zeros_form or form_b), "R3.fourier-ideal", "ideal_low_pass_filter:mask-init",
+              "the mask starts as zeros over all frequencies (or is an uninitialised buffer that is filled entirely)", f"mask initialised by `{src(zero_init[0].value) if zero_init else '?'}`", i, i.node)
+    ctx.check(form_a or form_b, "R3.fourier-ideal", "ideal_low_pass_filter:mask", "the first round(f * n_freq) components are kept", f"mask store `{src(mask_stores[0]) if mask_stores else '?'}`", i, i.node)
     gq = ctx.func("black_it.loss_functions.fourier:gaussian_low_pass_filter")
     ng = normaliser(prog, gq)
     sig, ff = gq.params[0], gq.params[1]
